@@ -39,6 +39,11 @@ class IR:
                 a = "datatransfer"
             self.alias.setdefault(a, p)
         self.alias["message1_1"] = MOD + "/message/message1_1prime"
+        self.dep_vars = d.get("dep_vars") or {}
+        self.dep_alias = {}
+        for path, name in (d.get("pkg_names") or {}).items():
+            if path not in self.packages:
+                self.dep_alias.setdefault(name, []).append(path)
         for f in self.funcs.values():
             f["params"] = f.get("params") or []
             f["results"] = f.get("results") or []
@@ -50,6 +55,10 @@ class IR:
                     if ins.get("aux") is None:
                         ins["aux"] = {}
         self._loops = {}
+        if "interface{}" not in self.types:
+            self.types["interface{}"] = {"kind": "interface", "methods": []}
+        if self.types.get("any", {}).get("kind") == "alias" and self.types["any"].get("underlying") == "any":
+            self.types["any"] = {"kind": "interface", "methods": []}
 
     # ---- type helpers
     def ty(self, t):
@@ -63,6 +72,8 @@ class IR:
             if ti is None:
                 return t
             if ti["kind"] in ("named", "alias"):
+                if ti["underlying"] == t:
+                    return "interface{}" if "interface{}" in self.types else t
                 t = ti["underlying"]
                 seen += 1
                 if seen > 20:
